@@ -23,6 +23,8 @@ from pv.codec import build, Env, token
 ASSUMPTIONS = [
     'ulist: only the operators named in the statement (+ | - &) and the constructor are claimed; the in-place list mutators inherited '
     'from list (append/extend/insert/__setitem__/+=) and the trusted constructor flag unique=True are outside the claim',
+    'ulist: the result is never one of the operand objects (the code returns self.copy() in every no-op case; "without side effects" is read as '
+    '"a later in-place change of the result cannot reach an operand")',
     'ulist: "duplicate" means what python containers mean by it (a is b or a == b), so 1, 1.0 and True are one element and a NaN object '
     'is a duplicate of itself only; right-hand operands are a single hashable non-list element, a list or a ulist',
     'mapping keys are non-empty strings without "." (dictattr reads a dotted key as a tree path - that is C15) and never the name of a '
@@ -82,6 +84,7 @@ _U_NAN = st.integers(0, 1).map(lambda k: ['nan', k])
 _U_ELEM = st.one_of(_U_INT, _U_INT, _U_STR, st.none(), _U_TUP, _U_ALIAS, _U_NAN)
 
 _U_OPS = ['+', '|', '-', '&']
+_U_FINGERPRINTS = ['self', 'copy', 'ucopy', 'reversed', 'rotated', 'same_ends']
 
 
 @st.composite
@@ -97,9 +100,13 @@ def _ulist_case(draw):
     ops = []
     for _ in range(draw(st.sampled_from([1, 1, 2, 3]))):
         op = draw(st.sampled_from(_U_OPS))
-        kind = draw(st.sampled_from(['elem', 'list', 'list', 'ulist']))
+        kind = draw(st.sampled_from(['elem', 'elem', 'list', 'list', 'list', 'ulist', 'ulist', 'fingerprint']))
         if kind == 'elem':
             ops.append([op, kind, draw(st.one_of(inside, anywhere))])
+        elif kind == 'fingerprint':
+            # operands that look like the left operand to a cheap test: the object itself, an equal copy, the same elements in another order,
+            # same length / first / last element with a different middle
+            ops.append([op, draw(st.sampled_from(_U_FINGERPRINTS)), draw(st.integers(0, 7))])
         else:
             # some members, some strangers, repeats allowed, any order
             xs = [draw(inside) for _ in range(draw(st.sampled_from([0, 1, 1, 2, 2, 3, 4])))] + [draw(anywhere) for _ in range(draw(st.sampled_from([0, 0, 1, 1, 2, 3])))]
@@ -136,7 +143,10 @@ def _ulist_long_case(draw):
     ops = []
     for k in range(draw(st.sampled_from([1, 1, 2]))):
         op = draw(st.sampled_from(_U_OPS))
-        if shape == 'long_left' or k > 0:
+        if shape != 'long_right' and draw(st.sampled_from([False] * 7 + [True])):
+            kind = draw(st.sampled_from(_U_FINGERPRINTS))
+            operand = draw(st.integers(0, 7))
+        elif shape == 'long_left' or k > 0:
             kind = draw(st.sampled_from(['elem', 'list', 'list', 'ulist']))
             operand = draw(idx) if kind == 'elem' else (long_list() if draw(st.integers(0, 3)) == 0 else short_list())
         else:
@@ -200,6 +210,31 @@ def run_ulist_ops(spec):
             xs = [x]
             arg = x
             arg_before = None
+        elif kind in _U_FINGERPRINTS:
+            r = operand
+            if kind in ('self', 'copy', 'ucopy'):
+                xs = list(before)
+            elif kind == 'reversed':
+                xs = before[::-1]
+            elif kind == 'rotated':
+                k0 = (1 + r) % len(before) if before else 0
+                xs = before[k0:] + before[:k0]
+            else:
+                # same length, same first and last element; one middle element is replaced by a stranger (or two are swapped)
+                xs = list(before)
+                if len(xs) >= 3:
+                    i = 1 + r % (len(xs) - 2)
+                    strangers = [e for e in pool if not _in(e, before)]
+                    if strangers:
+                        xs[i] = strangers[r % len(strangers)]
+                    elif len(xs) >= 4:
+                        j = 1 + (r + 1) % (len(xs) - 2)
+                        xs[i], xs[j] = xs[j], xs[i]
+            arg = u if kind == 'self' else call('ulist(%s)' % short(xs, 120), ulist, list(xs)) if kind == 'ucopy' else list(xs)
+            arg_before = list(arg)
+            cls.append('fingerprint=' + kind)
+            cls.append('fingerprint_operand')
+            kind = 'ulist' if kind in ('self', 'ucopy') else 'list'
         else:
             xs = [pool[i] for i in operand]
             arg = list(xs)
@@ -211,6 +246,8 @@ def run_ulist_ops(spec):
                       _first_diff(arg_before, _dedup(xs)))
                 _len_classes('raw_len', len(xs), cls)
         what = 'ulist(%s) %s %s%s' % (short(before, 100), op, 'ulist' if kind == 'ulist' else '', short(arg_before if arg_before is not None else arg, 100))
+        if arg is u:
+            what += ' [the same object on both sides]'
         if op == '+':
             res = call(what, lambda: u + arg)
             exp = _dedup(before + xs)
@@ -230,6 +267,15 @@ def run_ulist_ops(spec):
         check(all(not _same(got[i], got[j]) for i in range(len(got)) for j in range(i)), '%s = %s contains a duplicate', what, got)
         check(_seq_same(got, exp), '%s = %s, the ordered-set model says %s (%s)', what, got, exp, _first_diff(got, exp))
         check(_ident(list(u), before), '%s changed its left operand to %s', what, list(u))
+        # without side effects: a result that IS one of the operands turns every later in-place change of the result into a change of the operand
+        check(res is not u, '%s returned its left operand itself (no-op result aliases the operand)', what)
+        check(arg_before is None or res is not arg, '%s returned its right operand itself', what)
+        if _seq_same(got, before):
+            cls.append('noop_result_equals_left_operand')
+        if not got:
+            cls.append('result_empty')
+        if kind == 'elem' and not x and x is not None or kind == 'elem' and x is None:
+            cls.append('falsy_elem_operand')
         if arg_before is not None:
             check(_ident(list(arg), arg_before), '%s changed its right operand to %s', what, list(arg))
         # classes
@@ -293,7 +339,7 @@ def _classes():
             pass
         _CLS.update(dict=dict, dictattr=dictattr, Dict=Dict, AttrSub=AttrSub, DictSub=DictSub, dictable=dictable)
         for name in _MAP_CLASSES:
-            for k in _KEYS + _ABSENT_EXTRA + _NEW + _B_NAMES + _D_NAMES + _LONG_KEYS:
+            for k in _KEYS + _ABSENT_EXTRA + _NEW + _B_NAMES + _D_NAMES + _LONG_KEYS + _FILLER:
                 if k in dir(_CLS[name]):
                     raise HarnessError('key %r is an attribute of %s' % (k, name))
     return _CLS
@@ -303,23 +349,106 @@ def _final_names(keys, mapping):
     return [mapping.get(k, k) for k in keys]
 
 
+def _relabel_op(draw, keys, absent, long=False):
+    """
+    a relabel operation on a mapping with the given keys. Besides renames onto fresh names this generates renames whose new label is
+    ANOTHER EXISTING key: swaps, rotations, permutation lists, permuting callables, prefix / suffix chains (a -> x_a while x_a exists).
+    The resulting key list is always duplicate-free.
+    """
+    op = dict(name='relabel')
+    forms = ['kw', 'dict', 'prefix', 'suffix', 'callable', 'identity', 'callable_kw', 'prefix_kw']
+    if len(keys) >= 2:
+        forms += ['list', 'args', 'swap', 'swap', 'rotate', 'rotate', 'perm_list', 'perm_list', 'perm_args', 'table', 'table']
+    if long:
+        forms = ['prefix', 'suffix', 'swap', 'rotate', 'perm_list', 'table', 'kw', 'callable']
+    form = draw(st.sampled_from(forms))
+
+    def some_keys(lo, hi):
+        n = draw(st.integers(lo, min(hi, len(keys))))
+        if long:
+            # keys are in drawn order already: a slice is a random subset (keeps big cases inside hypothesis' entropy budget)
+            start = draw(st.integers(0, len(keys) - n))
+            return keys[start:start + n]
+        return list(draw(st.permutations(keys))[:n])
+
+    if form in ('swap', 'rotate', 'table'):
+        cyc = some_keys(2, 2) if form == 'swap' else some_keys(2, 5 if not long else 40)
+        mapping = {cyc[i]: cyc[(i + 1) % len(cyc)] for i in range(len(cyc))}
+        if form != 'table' and absent and draw(st.integers(0, 3)) == 0:
+            mapping[absent[0]] = 'N1'                       # a rename of an absent key rides along
+        pairs = [[o, mapping[o]] for o in (sorted(mapping) if long else draw(st.permutations(sorted(mapping))))]
+        if form == 'table':
+            op.update(form='callable', fn='table', table=pairs)
+        else:
+            op.update(form=draw(st.sampled_from(['kw', 'dict'])), map=pairs)
+    elif form in ('perm_list', 'perm_args'):
+        if long:
+            r = draw(st.integers(1, len(keys) - 1))
+            new = draw(st.sampled_from([keys[r:] + keys[:r], keys[::-1]]))
+        else:
+            new = list(draw(st.permutations(keys)))
+        op.update(form='list' if form == 'perm_list' else 'args', new=new)
+    elif form == 'identity':
+        ks = some_keys(0, 3)
+        op.update(form=draw(st.sampled_from(['kw', 'dict'])), map=[[k, k] for k in ks])
+    elif form in ('kw', 'dict'):
+        olds = some_keys(0, 3) + list(draw(st.permutations(absent[:4]))[:draw(st.integers(0, 2))])
+        olds = list(draw(st.permutations(olds)))
+        targets = list(draw(st.permutations(_NEW + keys[:4] + absent[:2]))[:len(olds)])
+        mapping = dict(zip(olds, targets))
+        # no colliding final names, by construction: a colliding target is replaced by a fresh name
+        fresh = iter('F%i' % i for i in range(10))
+        for o in olds:
+            final = _final_names(keys, mapping)
+            if o in keys and final.count(mapping[o]) > 1:
+                mapping[o] = next(fresh)
+        op.update(form=form, map=[[o, mapping[o]] for o in olds])
+    elif form in ('prefix', 'suffix', 'prefix_kw'):
+        f = 'suffix' if form == 'suffix' else 'prefix'
+        op.update(form=f, arg=draw(st.sampled_from(['x_', 'pre_', 'A_'] if f == 'prefix' else ['_x', '_suf', '_1'])))
+        if form == 'prefix_kw' and keys:
+            op['map'] = [[k, n] for k, n in zip(some_keys(1, 2), draw(st.permutations(_NEW)))]
+    elif form in ('callable', 'callable_kw'):
+        fn = draw(st.sampled_from(['upper', 'double', 'wrap']))
+        if len(set(_RELABEL_FN[fn](k) for k in keys)) < len(keys) or any(_RELABEL_FN[fn](k) in keys and _RELABEL_FN[fn](k) != k for k in keys):
+            fn = 'wrap'
+        op.update(form='callable', fn=fn)
+        if form == 'callable_kw' and keys:
+            op['map'] = [[k, n] for k, n in zip(some_keys(1, 2), draw(st.permutations(_NEW)))]
+    else:
+        op.update(form=form, new=list(draw(st.permutations(_NEW + _KEYS))[:len(keys)]))
+    return op
+
+
 @st.composite
 def _mapping_case(draw):
     cls = draw(st.sampled_from(_MAP_CLASSES))
     nk = draw(st.integers(0, 5))
     keys = list(draw(st.permutations(_KEYS))[:nk])
+    if cls == 'dictable':
+        opname = draw(st.sampled_from(['sub1', 'subl', 'and1', 'andl', 'getl', 'relabel', 'relabel', 'relabel']))
+    else:
+        opname = draw(st.sampled_from(['sub1', 'subl', 'and1', 'andl', 'getl', 'gett', 'add', 'add', 'relabel', 'relabel', 'relabel', 'attr']))
+    chain = None
+    if opname == 'relabel' and draw(st.integers(0, 5)) == 0:
+        # names with structure: the mapping holds both k and the label that prefixing / suffixing k produces
+        chain = draw(st.sampled_from([('prefix', 'x_', ['a', 'x_a']), ('suffix', '_x', ['a', 'a_x']), ('prefix', 'x_', ['a', 'x_a', 'a_x'])]))
+        keys = list(draw(st.permutations(keys + [k for k in chain[2] if k not in keys])))
     absent = [k for k in _KEYS if k not in keys][:3] + _ABSENT_EXTRA
     if cls == 'dictable':
         nrows = draw(st.integers(0, 3))
         items = [[k, draw(st.lists(_FLAT_SCALAR, min_size=nrows, max_size=nrows))] for k in keys]
-        opname = draw(st.sampled_from(['sub1', 'subl', 'and1', 'andl', 'getl', 'relabel', 'relabel']))
     else:
         nrows = None
         items = [[k, draw(_FLAT)] for k in keys]
-        opname = draw(st.sampled_from(['sub1', 'subl', 'and1', 'andl', 'getl', 'gett', 'add', 'add', 'relabel', 'relabel', 'attr']))
+
     def selection(lo=0, unique=False):
         """keys chosen by construction: some present, some absent, in any order, optionally with a repeat"""
-        mode = draw(st.sampled_from(['present', 'present', 'mixed', 'mixed', 'mixed', 'absent', 'any']))
+        mode = draw(st.sampled_from(['present', 'present', 'mixed', 'mixed', 'mixed', 'absent', 'any', 'all', 'all_reversed', 'all_permuted']))
+        if mode.startswith('all') and len(keys) >= lo:
+            # looks like "everything / nothing to do" to a cheap test (same length, same key set), possibly in another order
+            return list(keys) if mode == 'all' else keys[::-1] if mode == 'all_reversed' else list(draw(st.permutations(keys)))
+        mode = 'mixed' if mode.startswith('all') else mode
         n_in = 0 if mode == 'absent' else draw(st.integers(0 if mode == 'any' else 1, 3))
         n_out = 0 if mode == 'present' else draw(st.integers(0 if mode == 'any' else 1, 2))
         sel = list(draw(st.permutations(keys))[:n_in]) + list(draw(st.permutations(absent))[:n_out])
@@ -341,39 +470,24 @@ def _mapping_case(draw):
     elif opname in ('subl', 'andl', 'getl', 'gett'):
         op['keys'] = selection(lo=1 if opname in ('gett', 'getl') else 0)
     elif opname == 'add':
-        okeys = selection(unique=True)
-        op['other'] = [[k, draw(_FLAT)] for k in okeys]
-        op['other_cls'] = draw(st.sampled_from(['dict', 'dictattr', 'Dict'] if cls in _DICT_FAMILY else ['dict', 'dictattr', 'Dict', 'AttrSub', 'DictSub']))
+        how = draw(st.sampled_from(['keys', 'keys', 'keys', 'keys', 'self', 'same_keys_reordered']))
+        if how == 'self':
+            op['other_self'] = True
+            op['other'] = []
+            op['other_cls'] = cls
+        else:
+            okeys = keys[::-1] if how == 'same_keys_reordered' else selection(unique=True)
+            op['other'] = [[k, draw(_FLAT)] for k in okeys]
+            op['other_cls'] = draw(st.sampled_from(['dict', 'dictattr', 'Dict'] if cls in _DICT_FAMILY else ['dict', 'dictattr', 'Dict', 'AttrSub', 'DictSub']))
     elif opname == 'attr':
         op['probe'] = selection(lo=1, unique=True)
         op['set'] = [onekey(public=True), draw(_FLAT)]
         op['del'] = onekey(public=True)
     elif opname == 'relabel':
-        forms = ['kw', 'kw', 'dict', 'prefix', 'suffix', 'callable'] + (['list', 'args'] if len(keys) >= 2 else [])
-        form = draw(st.sampled_from(forms))
-        op['form'] = form
-        if form in ('kw', 'dict'):
-            olds = selection(unique=True)
-            targets = list(draw(st.permutations(_NEW + _KEYS[:4]))[:len(olds)])
-            mapping = dict(zip(olds, targets))
-            # no colliding final names, by construction: a colliding target is replaced by a fresh name
-            fresh = iter('F%i' % i for i in range(10))
-            for o in olds:
-                final = _final_names(keys, mapping)
-                if o in keys and final.count(mapping[o]) > 1:
-                    mapping[o] = next(fresh)
-            op['map'] = [[o, mapping[o]] for o in olds]
-        elif form == 'prefix':
-            op['arg'] = draw(st.sampled_from(['x_', 'pre_', 'A_']))
-        elif form == 'suffix':
-            op['arg'] = draw(st.sampled_from(['_x', '_suf', '_1']))
-        elif form == 'callable':
-            fn = draw(st.sampled_from(['upper', 'double', 'wrap']))
-            if len(set(_RELABEL_FN[fn](k) for k in keys)) < len(keys):
-                fn = 'double'
-            op['fn'] = fn
+        if chain:
+            op.update(form=chain[0], arg=chain[1])
         else:
-            op['new'] = list(draw(st.permutations(_NEW + _KEYS))[:len(keys)])
+            op = _relabel_op(draw, keys, absent)
     return dict(cls=cls, items=items, nrows=nrows, op=op)
 
 
@@ -393,11 +507,19 @@ def _mapping_long_case(draw):
     else:
         nrows = None
         items = [[k, i] for i, k in enumerate(keys)]
-    opname = draw(st.sampled_from(['subl', 'andl', 'getl', 'subl', 'andl', 'getl', 'sub1', 'and1', 'gett']))
+    opname = draw(st.sampled_from(['relabel', 'relabel', 'relabel', 'add', 'add', 'subl', 'andl', 'getl', 'subl', 'andl', 'getl', 'sub1', 'and1', 'gett']))
     op = dict(name=opname)
-    if cls == 'dictable' and opname == 'gett':
+    if cls == 'dictable' and opname in ('gett', 'add'):
         opname = op['name'] = 'getl'
-    if opname in ('sub1', 'and1'):
+    if opname == 'relabel':
+        op = _relabel_op(draw, keys, absent[:3], long=True)
+    elif opname == 'add':
+        a = draw(st.integers(0, nk))
+        okeys = keys[a:draw(st.integers(a, nk))] + absent[:draw(st.integers(0, len(absent)))]
+        okeys = draw(st.sampled_from([okeys, okeys[::-1], okeys[1::2] + okeys[::2]]))
+        op['other'] = [[k, -1 - i] for i, k in enumerate(okeys)]
+        op['other_cls'] = draw(st.sampled_from(['dict', 'dictattr', 'Dict']))
+    elif opname in ('sub1', 'and1'):
         op['key'] = draw(st.sampled_from(keys)) if draw(st.integers(0, 3)) else draw(st.sampled_from(absent))
     else:
         mode = draw(st.sampled_from(['present', 'present', 'mixed'] if opname in ('getl', 'gett') else ['present', 'mixed', 'mixed']))
@@ -495,6 +617,10 @@ def run_mapping_ops(spec):
         cls.append(c)
         if len(set(sel)) < len(sel):
             cls.append('sel_has_duplicates')
+        if keys and len(sel) == len(keys) and set(sel) == set(keys):
+            cls.append('sel=all_keys_same_order' if list(sel) == keys else 'sel=all_keys_other_order')
+        if any(k in data and not data[k] for k in sel):
+            cls.append('falsy_value_selected')
         return c
 
     if name in ('sub1', 'subl'):
@@ -553,6 +679,11 @@ def run_mapping_ops(spec):
         C = _classes()
         odata = {k: build(v, env) for k, v in op['other']}
         other = C[op['other_cls']](dict(odata))
+        if op.get('other_self'):
+            odata, other = dict(data), d
+            cls.append('other_is_the_mapping_itself')
+        elif keys and list(odata) != keys and sorted(odata) == sorted(keys):
+            cls.append('other_has_same_keys_in_another_order')
         osnap = _snapshot(other)
         what = '%s + %s(%s)' % (rep, op['other_cls'], short(odata, 120))
         res = call(what, lambda: d + other)
@@ -560,7 +691,7 @@ def run_mapping_ops(spec):
         exp.update(odata)
         _check_mapping(what, res, exp, d, ordered=False)
         check(res == {**data, **odata}, '%s = %s is not equal to {**d, **o} = %s', what, res, exp)
-        check(_snapshot(other) == osnap and type(other) is C[op['other_cls']], '%s changed its right operand to %s', what, other)
+        check(_snapshot(other) == osnap and (other is d or type(other) is C[op['other_cls']]), '%s changed its right operand to %s', what, other)
         n_over = sum(1 for k in odata if k in data)
         cls.append('other=' + op['other_cls'])
         cls.append('add_overlap=' + ('none' if n_over == 0 else 'all' if n_over == len(odata) else 'some'))
@@ -584,17 +715,26 @@ def run_mapping_ops(spec):
             if any(n in data for o, n in mapping.items() if o in data):
                 cls.append('relabel_onto_existing_name')
             nt = n_hit >= 1 and len(keys) >= 2
-        elif form in ('prefix', 'suffix'):
-            a = op['arg']
-            what = '%s.relabel(%r)' % (rep, a)
-            res = call(what, lambda: d.relabel(a))
-            final = [a + k for k in keys] if form == 'prefix' else [k + a for k in keys]
-            nt = len(keys) >= 2
-        elif form == 'callable':
-            fn = _RELABEL_FN[op['fn']]
-            what = '%s.relabel(<%s>)' % (rep, op['fn'])
-            res = call(what, lambda: d.relabel(fn))
-            final = [fn(k) for k in keys]
+        elif form in ('prefix', 'suffix', 'callable'):
+            # positional rule, optionally combined with individual keywords (which win, see the docstring of relabel)
+            kwmap = {o: n for o, n in op.get('map', [])}
+            if form == 'callable':
+                if op['fn'] == 'table':
+                    table = {o: n for o, n in op['table']}
+                    a = lambda k: table.get(k, k)
+                    what = '%s.relabel(lambda k: %r.get(k, k)%s)' % (rep, table, ''.join(', %s=%r' % kv for kv in kwmap.items()))
+                else:
+                    a = _RELABEL_FN[op['fn']]
+                    what = '%s.relabel(<%s>%s)' % (rep, op['fn'], ''.join(', %s=%r' % kv for kv in kwmap.items()))
+                rule = a
+            else:
+                a = op['arg']
+                what = '%s.relabel(%r%s)' % (rep, a, ''.join(', %s=%r' % kv for kv in kwmap.items()))
+                rule = (lambda k: a + k) if form == 'prefix' else (lambda k: k + a)
+            res = call(what, lambda: d.relabel(a, **kwmap))
+            final = [kwmap[k] if k in kwmap else rule(k) for k in keys]
+            if kwmap:
+                cls.append('relabel_rule_plus_keywords')
             nt = len(keys) >= 2
         else:
             new = list(op['new'])
@@ -612,6 +752,19 @@ def run_mapping_ops(spec):
             nt = True
         if len(set(final)) < len(final):
             raise HarnessError('generator produced a colliding relabel %s -> %s' % (keys, final))
+        # renames whose new label is another existing key (collision-free in the result, but not for a one-key-at-a-time implementation)
+        moved = {k: f for k, f in zip(keys, final) if k != f}
+        if not moved:
+            cls.append('relabel_changes_nothing')
+        if any(f in data for f in moved.values()):
+            cls.append('relabel_new_label_is_an_existing_key')
+            cls.append('relabel_new_label_is_an_existing_key/' + ('prefix_suffix' if form in ('prefix', 'suffix') else 'callable' if form == 'callable' else
+                                                                 'list' if form in ('list', 'args') else 'keywords'))
+        if moved and set(moved.values()) == set(moved):
+            cls.append('relabel_permutes_existing_keys')
+            cls.append('relabel_swap' if any(moved.get(f) == k for k, f in moved.items()) else 'relabel_rotation')
+            if any(moved.get(f) != k for k, f in moved.items()):
+                cls.append('relabel_cycle>=3')
         exp = {f: data[k] for k, f in zip(keys, final)}
         _check_mapping(what, res, exp, d, ordered=False)
     elif name == 'attr':
@@ -645,22 +798,28 @@ def run_mapping_ops(spec):
         nt = 0 < n_in
     else:
         raise HarnessError('unknown op %r' % name)
+    if cname == 'dictable' and spec['nrows'] == 0 and keys:
+        cls.append('dictable_zero_rows_with_columns')
+    if name not in ('attr', 'gett') and 'res' in dir() and len(dict.keys(res)) == 0 and keys:
+        cls.append('result_has_no_keys')
     check(_snapshot(d) == snap and type(d) is _classes()[cname], '%s changed the mapping it was applied to: now %s', name if name == 'attr' else what, dict(d))
     return dict(nt=nt, cls=cls)
 
 
 # ----------------------------------------------------------------------------- Dict.__call__
 
-_B_NAMES = ['x', 'y', 'z', 'w']
-_D_NAMES = ['p', 'q', 'r', 's', 't', 'u']
+# names with structure: prefixes / suffixes / concatenations of one another
+_B_NAMES = ['x', 'y', 'xy', 'yx']
+_D_NAMES = ['p', 'q', 'pq', 'qp', 'p_q', 'r']
+_FILLER = ['k%02i' % i for i in range(70)]
 _FN_CACHE = {}
 
 
-def _make_fn(name, args):
-    """lambda <args>: (name, <args>)  - the value records the whole evaluation tree"""
-    k = (name, tuple(args))
+def _make_fn(name, args, ret=None):
+    """lambda <args>: (name, <args>)  - the value records the whole evaluation tree; ret = 'none' / 'zero' makes the callable return a falsy value"""
+    k = (name, tuple(args), ret)
     if k not in _FN_CACHE:
-        body = '(%r,%s)' % (name, ''.join(' %s,' % a for a in args))
+        body = 'None' if ret == 'none' else '0' if ret == 'zero' else '(%r,%s)' % (name, ''.join(' %s,' % a for a in args))
         _FN_CACHE[k] = 'lambda %s: %s' % (', '.join(args), body)
     return eval(_FN_CACHE[k], {})   # a fresh function object per case
 
@@ -696,9 +855,11 @@ def _reference(base, kw):
     """independent evaluator: plain values first, then every derived key by recursion on its parameters"""
     env = dict(base)
     fdef = {}
+    ret = {}
     for n, e in kw:
         if 'f' in e:
             fdef[n] = e['f']
+            ret[n] = e.get('r')
         else:
             env[n] = e['v']
     done = {}
@@ -706,7 +867,8 @@ def _reference(base, kw):
     def value(n):
         if n in fdef:
             if n not in done:
-                done[n] = (n,) + tuple(value(a) for a in fdef[n])
+                v = (n,) + tuple(value(a) for a in fdef[n])
+                done[n] = None if ret[n] == 'none' else 0 if ret[n] == 'zero' else v
             return done[n]
         if n not in env:
             raise HarnessError('parameter %r names nothing' % n)
@@ -722,11 +884,11 @@ def _one_call(cname, base, kw, label):
     snap = _snapshot(d)
     kwargs = {}
     for n, e in kw:
-        kwargs[n] = _make_fn(n, e['f']) if 'f' in e else e['v']
+        kwargs[n] = _make_fn(n, e['f'], e.get('r')) if 'f' in e else e['v']
     if list(kwargs) != [n for n, _ in kw]:
         raise HarnessError('duplicate keyword in %s' % kw)
     deps, cyclic, depth = _graph_info(kw)
-    what = '%s(%s)(%s)' % (cname, short(dict(base), 100), ', '.join('%s=%s' % (n, ('lambda %s: ..' % ','.join(e['f'])) if 'f' in e else repr(e['v'])) for n, e in kw))
+    what = '%s(%s)(%s)' % (cname, short(dict(base), 100), ', '.join('%s=%s' % (n, ('lambda %s: %s' % (','.join(e['f']), {'none': 'None', 'zero': '0'}.get(e.get('r'), '..'))) if 'f' in e else repr(e['v'])) for n, e in kw))
     # termination is decided by fuel: a correct run on 6 callables makes < 2 000 calls (n rounds of n signature inspections)
     limit = 2000 * (len(kw) + 2) ** 2
 
@@ -771,18 +933,42 @@ def run_call(spec):
     else:
         orders = [tuple(range(len(kw)))] + [tuple(o) for o in spec.get('orders', [])]
     n_nontopo = 0
+    bd = dict(base)
+    redefined_dependent_first = False
     for o in orders:
         kwo = [kw[i] for i in o]
         deps, cyclic, depth = _one_call(cname, base, kwo, o)
-        if not _is_topological([names[i] for i in o], deps):
+        on = [names[i] for i in o]
+        if not _is_topological(on, deps):
             n_nontopo += 1
+        # a callable RE-DEFINES a key that is already in the mapping, and a callable that depends on it comes first in keyword order
+        if any(n in bd and any(n in deps[m] and on.index(m) < on.index(n) for m in deps) for n in deps):
+            redefined_dependent_first = True
     nd = len(deps)
-    shadow = any(n in dict(base) for n in deps)
+    shadow = any(n in bd for n in deps)
+    reach = {n: set(a for a in deps[n] if a in deps) for n in deps}
+    for _ in range(len(deps)):
+        for n in reach:
+            for a in list(reach[n]):
+                reach[n] |= reach[a]
+    on_cycle = [n for n in deps if n in reach[n]]
     cls = ['cls=' + cname, 'derived=%i' % nd, 'cyclic' if cyclic else 'acyclic', 'depth=%i' % min(depth, 4)]
     if not cyclic:
         cls.append('some_order_not_topological' if n_nontopo else 'all_orders_topological')
     if shadow:
         cls.append('derived_key_shadows_old_value')
+    if redefined_dependent_first:
+        cls.append('existing_key_redefined_and_its_dependent_comes_first')
+    if on_cycle and all(n in bd for n in on_cycle):
+        cls.append('cycle_among_existing_keys')
+    if any(n in bd and not bd[n] for n in deps):
+        cls.append('falsy_old_value_under_derived_key')
+    if any(e.get('r') for _, e in kw):
+        cls.append('callable_returns_falsy')
+    if nd == 0:
+        cls.append('no_callables')
+    if len(bd) >= 64:
+        cls.append('base_keys>=64')
     if any('v' in e for _, e in kw):
         cls.append('plain_keywords')
     if spec.get('perms') == 'all':
@@ -796,19 +982,21 @@ def run_call(spec):
 @st.composite
 def _call_case(draw, tier):
     cname = draw(st.sampled_from(['Dict', 'Dict', 'DictSub']))
-    nd = draw(st.sampled_from([1, 2, 3, 3, 4, 4, 5, 5, 6, 6]))
+    nd = draw(st.sampled_from([1, 2, 3, 3, 4, 4, 5, 5, 6, 6, 6, 0]))
     derived = list(draw(st.permutations(_D_NAMES))[:nd])          # also the hidden rank order
     nb = draw(st.integers(0, 4))
     bnames = list(draw(st.permutations(_B_NAMES))[:nb])
-    base = [[b, draw(st.integers(0, 9))] for b in bnames]
+    base = [[b, draw(st.one_of(st.integers(0, 9), st.integers(0, 9), st.none()))] for b in bnames]
     allperm = tier == 'thorough' and draw(st.integers(0, 9)) == 0
     nplain = draw(st.integers(0, 0 if (allperm and nd == 6) else min(2, 6 - nd) if allperm else 2))
     plain = [[n, draw(st.integers(10, 19))] for n in list(draw(st.permutations(_B_NAMES))[:nplain])]
     avail = sorted(set(bnames) | set(n for n, _ in plain))
     # old values under some of the derived names: out-of-order evaluation then yields a wrong value rather than an exception
     for n in derived:
-        if draw(st.integers(0, 3)) == 0:
-            base.append([n, -1 - _D_NAMES.index(n)])
+        if draw(st.integers(0, 2)) == 0:
+            base.append([n, draw(st.sampled_from([-1 - _D_NAMES.index(n), -1 - _D_NAMES.index(n), 0, None]))])
+    if draw(st.sampled_from([False] * 7 + [True])):
+        base = base + [[k, i] for i, k in enumerate(_FILLER)]      # a big mapping under the same few derived keys
     dense = draw(st.sampled_from([0.3, 0.5, 0.8]))
     fdef = {}
     for i, n in enumerate(derived):
@@ -827,7 +1015,8 @@ def _call_case(draw, tier):
             j = draw(st.integers(i + 1, nd - 1))
             if derived[j] not in fdef[derived[i]]:
                 fdef[derived[i]] = fdef[derived[i]] + [derived[j]]
-    kw = [[n, {'f': fdef[n]}] for n in derived] + [[n, {'v': v}] for n, v in plain]
+    kw = [[n, dict({'f': fdef[n]}, **({'r': draw(st.sampled_from(['none', 'zero']))} if draw(st.integers(0, 7)) == 0 else {}))] for n in derived]
+    kw = kw + [[n, {'v': v}] for n, v in plain]
     kw = list(draw(st.permutations(kw)))
     spec = dict(cls=cname, base=base, kw=kw)
     if allperm:
@@ -899,8 +1088,10 @@ def _enum_spec(gi, shadow, order):
     n, edges = _graphs()[gi]
     names = _D_NAMES[:n]
     base = [['x', 1], ['y', 2]]
-    if shadow:
+    if shadow == 1:
         base += [[m, -1 - i] for i, m in enumerate(names)]
+    elif shadow == 2:
+        base += [[m, None if i % 2 else 0] for i, m in enumerate(names)]    # old values that are falsy
     kw = []
     for i in range(n):
         args = [names[j] for (a, j) in edges if a == i]
@@ -914,13 +1105,13 @@ def _enum_spec(gi, shadow, order):
 
 def enum_call_perms(tier):
     graphs = _graphs()
-    total = sum(2 * len(list(itertools.permutations(range(n)))) for n, _ in graphs)
+    total = sum(3 * len(list(itertools.permutations(range(n)))) for n, _ in graphs)
 
     def chunker(i, nchunks):
         for gi in range(i, len(graphs), nchunks):
             n = graphs[gi][0]
             for order in itertools.permutations(range(n)):
-                for shadow in (0, 1):
+                for shadow in (0, 1, 2):
                     yield _enum_spec(gi, shadow, list(order))
     return total, chunker
 
@@ -933,7 +1124,7 @@ def _enum_sample(draw):
     cand = [gi for gi, g in enumerate(graphs) if g[0] == n]
     gi = cand[draw(st.integers(0, len(cand) - 1))]
     order = list(draw(st.permutations(list(range(n)))))
-    return _enum_spec(gi, draw(st.integers(0, 1)), order)
+    return _enum_spec(gi, draw(st.sampled_from([0, 1, 1, 2])), order)
 
 
 # ----------------------------------------------------------------------------- registry
@@ -941,41 +1132,52 @@ def _enum_sample(draw):
 SUBS = [
     Sub('ulist_ops', lambda tier: _ulist_case(), run_ulist_ops, quick=6000, thorough=30000,
         rule='a pool of 1-7 hashable elements (ints, strings, None, tuples, 1/1.0/True aliases, NaN objects); ulist built from a list/tuple/ulist of <= 9 '
-             'pool elements, then a chain of 1-3 operations + | - & with a single pool element, a list (<= 7, repeats allowed) or a ulist; after every step: '
+             'pool elements, then a chain of 1-3 operations + | - & with a single pool element, a list (<= 7, repeats allowed), a ulist, or a "fingerprint" operand (the left operand itself, an equal copy, its elements reversed / rotated, same length and ends with another middle); after every step: result is not one of the operand objects, '
              'result is a ulist, duplicate-free, equal to the ordered-set model (first-occurrence order), both operands untouched. '
              'non-trivial = some list/ulist operand overlaps the current ulist partially and (operand or initial list) has repeated elements',
         floor=0.12, class_floors={'dup_in_operand': 0.2, 'overlap=partial': 0.2, 'elem_present': 0.1, 'elem_absent': 0.05,
-                                  'op&': 0.2, 'op-': 0.2, 'op+': 0.2, 'op|': 0.2, 'kind=ulist': 0.1, 'equal_across_types': 0.005}),
+                                  'op&': 0.2, 'op-': 0.2, 'op+': 0.2, 'op|': 0.2, 'kind=ulist': 0.1, 'equal_across_types': 0.005,
+                                  'fingerprint_operand': 0.05, 'fingerprint=self': 0.005, 'fingerprint=same_ends': 0.005, 'fingerprint=reversed': 0.005,
+                                  'noop_result_equals_left_operand': 0.2, 'falsy_elem_operand': 0.05, 'result_empty': 0.05}),
     Sub('ulist_long', lambda tier: _ulist_long_case(), run_ulist_ops, quick=1500, thorough=6000,
         rule='long inputs (size thresholds / fast paths): a pool of 5-40 distinct hashables; raw lists of 30-200 pool entries with many repeats in drawn order '
              '(so first- and last-occurrence order differ; in half of them 1-3 elements first appear only in the last positions) as constructor argument (list / tuple / ulist) and / or as right operand (list or ulist) of + | - &, '
              'the other side short or long, 1-2 operations; same ordered-set oracle as ulist_ops. non-trivial as in ulist_ops',
         floor=0.1, class_floors={'raw_len>=64': 0.5, 'raw_len>=128': 0.25, 'ctor_raw_len>=64': 0.3, 'ctor_raw_len>=128': 0.12, 'union_raw_len>=64': 0.08,
-                                 'union_raw_len>=128': 0.04, 'operand_len>=64': 0.2, 'operand_len>=128': 0.08, 'member_first_seen_at>=64': 0.05, 'member_first_seen_at>=128': 0.02, 'first_and_last_occurrence_order_differ': 0.5,
+                                 'union_raw_len>=128': 0.04, 'operand_len>=64': 0.2, 'operand_len>=128': 0.08, 'member_first_seen_at>=64': 0.05, 'member_first_seen_at>=128': 0.02, 'first_and_last_occurrence_order_differ': 0.5, 'fingerprint_operand': 0.03,
                                  'op&': 0.15, 'op-': 0.15, 'op+': 0.15, 'op|': 0.15}),
     Sub('mapping_ops', _mapping_strategy, run_mapping_ops, quick=7000, thorough=30000,
         rule='mapping of class dictattr / Dict / local subclass of each / dictable with 0-5 string keys and flat values; one operation: d - key, d - [keys], '
-             'd & key, d & [keys], d[[keys]], d[k1, k2], d + other, relabel (keyword, dict, prefix, suffix, callable, full list, *names), attribute get/set/del; '
-             'selections present / absent / mixed; oracle: plain dict model, type(result) is type(d), result is not d, exact keys (ordered for - and &), '
+             'd & key, d & [keys], d[[keys]], d[k1, k2], d + other, relabel (keyword, dict, prefix, suffix, callable, full list, *names, rule + keywords; incl. swaps, rotations, permutation lists, permuting callables and prefix / suffix chains, i.e. new labels that are OTHER EXISTING keys), attribute get/set/del; '
+             'selections present / absent / mixed / all keys in the same or another order; d + d and d + same-keys-reordered; oracle: plain dict model, type(result) is type(d), result is not d, exact keys (ordered for - and &), '
              'type-strict equal values, d and the right operand unchanged. non-trivial = >= 2 keys and a selection / update / relabel that hits some but not all keys',
         floor=0.25, class_floors={'cls=dictable': 0.1, 'cls=AttrSub': 0.1, 'cls=DictSub': 0.1, 'sel=mixed': 0.08, 'sel=absent': 0.05, 'op=add': 0.08,
                                   'add_overlap=some': 0.03, 'op=relabel': 0.08, 'relabel=list': 0.004, 'relabel=callable': 0.008, 'op=gett': 0.04,
-                                  'op=attr': 0.02}),
+                                  'op=attr': 0.02,
+                                  'relabel_new_label_is_an_existing_key': 0.05, 'relabel_permutes_existing_keys': 0.03, 'relabel_swap': 0.02, 'relabel_cycle>=3': 0.005,
+                                  'relabel_new_label_is_an_existing_key/prefix_suffix': 0.015, 'relabel_new_label_is_an_existing_key/callable': 0.004,
+                                  'relabel_new_label_is_an_existing_key/list': 0.006, 'relabel_rule_plus_keywords': 0.01, 'relabel_changes_nothing': 0.01,
+                                  'sel=all_keys_other_order': 0.015, 'sel=all_keys_same_order': 0.015, 'other_is_the_mapping_itself': 0.004,
+                                  'other_has_same_keys_in_another_order': 0.01, 'falsy_value_selected': 0.05, 'dictable_zero_rows_with_columns': 0.01,
+                                  'result_has_no_keys': 0.03}),
     Sub('mapping_long', lambda tier: _mapping_strategy(tier, long=True), run_mapping_ops, quick=1200, thorough=5000,
         rule='same classes and oracle as mapping_ops on mappings with 20-80 keys (dictattr.keys() is a ulist; sizes around 32 and 64 over-sampled): d - [keys], d & [keys], '
-             'd[[keys]], d[k1, .., kn] with selections of up to 120 keys (repeats, any order, present or mixed with absent keys), and d - key, d & key. '
+             'd[[keys]], d[k1, .., kn] with selections of up to 120 keys (repeats, any order, present or mixed with absent keys), d - key, d & key, d + other (up to 100 keys) and relabel (prefix, suffix, swap, rotation of up to 40 keys, rotated / reversed full list, permuting callable). '
              'non-trivial as in mapping_ops',
-        floor=0.3, class_floors={'nkeys>=30': 0.6, 'nkeys>=64': 0.15, 'sel_len>=30': 0.3, 'sel_len>=64': 0.1, 'sel=mixed': 0.15, 'cls=dictable': 0.1,
-                                 'op=subl': 0.1, 'op=andl': 0.1, 'op=getl': 0.1}),
+        floor=0.3, class_floors={'nkeys>=30': 0.6, 'nkeys>=64': 0.15, 'sel_len>=30': 0.2, 'sel_len>=64': 0.05, 'sel=mixed': 0.12, 'cls=dictable': 0.1,
+                                 'op=subl': 0.08, 'op=andl': 0.08, 'op=getl': 0.08, 'op=relabel': 0.08, 'op=add': 0.06,
+                                 'relabel_permutes_existing_keys': 0.03}),
     Sub('call_graph', lambda tier: _call_case(tier), run_call, quick=3000, thorough=3000,
         rule='Dict / subclass with 0-4 base keys; keywords = 1-6 callable (derived) keys whose parameters name base keys, plain keywords or other derived keys '
-             '(random dag over a hidden rank order; 1 in 4 gets 1-2 back edges, no self-loops; 1 in 4 derived names also has an old value in d) plus 0-2 plain keywords; '
+             '(random dag over a hidden rank order; 1 in 4 gets 1-2 back edges, no self-loops; 1 in 3 derived names RE-DEFINES a key of d whose old value is an int, 0 or None; 1 callable in 8 returns None / 0; 1 case in 8 has 70 more base keys; names are prefixes / concatenations of one another) plus 0-2 plain keywords; '
              'called in the drawn order, 2 more drawn orders and the reverse (thorough: about 1 case in 5 is called in ALL orders of its <= 6 keywords, <= 720); oracle: recursive evaluator on the '
              'parameter names, ValueError iff a cycle exists, result class, d unchanged. non-trivial = cyclic, or depth >= 2 with an order that is not topological',
-        floor=0.3, class_floors={'cyclic': 0.08, 'deep_and_out_of_order': 0.3, 'derived=6': 0.1, 'derived_key_shadows_old_value': 0.2}),
+        floor=0.3, class_floors={'cyclic': 0.06, 'deep_and_out_of_order': 0.3, 'derived=6': 0.1, 'derived_key_shadows_old_value': 0.2,
+                                 'existing_key_redefined_and_its_dependent_comes_first': 0.25, 'cycle_among_existing_keys': 0.004,
+                                 'falsy_old_value_under_derived_key': 0.15, 'callable_returns_falsy': 0.15, 'base_keys>=64': 0.04, 'no_callables': 0.02}),
     EnumSub('call_perms', enum_call_perms, run_call, strategy=lambda tier: _enum_sample(), quick=3000, chunks=64,
             rule='every digraph without self-loops on 1-4 derived keys (1 + 4 + 64 + 4 096) and a fixed family of 22 graphs each on 5 and 6 keys '
                  '(chains in both label orders, stars, complete dag, tree, diamonds, 2-/3-/n-cycles with tails), every key also reading base keys; each graph in EVERY '
-                 'keyword order (n!) with and without old values under the derived names; same oracle as call_graph. quick tier samples this domain',
+                 'keyword order (n!) without old values, with old values and with FALSY old values (0 / None) under the derived names; same oracle as call_graph. quick tier samples this domain',
             floor=0.3),
 ]
